@@ -784,12 +784,15 @@ def lm_apply(col, w, ev, step):
 
 
 def lm_build(c, ctx, w):
-    nl = c.upto(ctx["max_layers"])
+    nl = c.pick(ctx["layer_counts"]) if ctx.get("layer_counts") else c.upto(ctx["max_layers"])
     top = c.pick(ctx["top_names"])
     reals, models, lvars = [], [], []
     if nl > ctx["full_upto"]:
         # covering family: every per-key presence pattern over the nl layers occurs for every key
-        kinds = [c.pick(ctx["kinds"]) for _ in range(nl)]
+        if ctx.get("kind_combos"):
+            kinds = c.pick(ctx["kind_combos"])
+        else:
+            kinds = [c.pick(ctx["kinds"]) for _ in range(nl)]
         mat = c.pick(COVER[nl])
         layers = list(zip(kinds, mat))
     else:
@@ -1126,12 +1129,14 @@ def subchecks(tier, seed):
                "top_names": tops}
         ctx.update(extra)
         subs.append(Sub(name, drv_lm, ctx, shard_depth=sd,
-                        bounds={"layers": "0..%d" % max_layers, "layer_kinds": kinds, "top_name": tops,
+                        bounds={"layers": extra.get("layer_counts") or "0..%d" % max_layers,
+                                "layer_kinds": extra.get("kind_combos") or kinds, "top_name": tops,
                                 **({"first_event": repr(extra["first"]), "note": "VERIF_SEED-selected exhaustive slice of the "
-                                    "thorough scope (histories of exactly %d events)" % max_ops} if extra else {}),
+                                    "thorough scope (histories of exactly %d events)" % max_ops} if "first" in extra else {}),
                                 "keys_per_layer": "every subset of k1,k2,k3 for stacks of <= %d layers; for taller stacks the "
                                                   "2**n covering matrices (every per-key presence pattern for every key)" % full_upto,
-                                "mutating_events": len(events), "history": "<= %d events" % max_ops}))
+                                "mutating_events": len(events),
+                                "history": "%s %d events" % ("exactly" if extra.get("min_ops") == max_ops else "<=", max_ops)}))
     if quick:
         lm_sub("layered-stacks", full, 1, 2, KINDS, [None, "t"], 6)
         lm_sub("layered-histories", reduced, 3, 1, ["plain", "lm:x"], [None], 6)
@@ -1140,7 +1145,10 @@ def subchecks(tier, seed):
     else:
         lm_sub("layered-stacks", full, 1, 3, KINDS, [None, "t"], 6)
         lm_sub("layered-stacks-2", full, 2, 2, KINDS, [None], 5)
-        lm_sub("layered-histories", reduced, 4, 1, ["plain", "lm:x"], [None], 6)
+        lm_sub("layered-histories", reduced, 4, 1, ["plain", "lm:x"], [None], 6, layer_counts=[0, 1, 2])
+        lm_sub("layered-histories-3", reduced, 3, 1, ["plain", "lm:x"], [None], 8, layer_counts=[3])
+        lm_sub("layered-histories-3-deep", reduced, 4, 1, ["plain", "lm:x"], [None], 7, layer_counts=[3], min_ops=4,
+               kind_combos=[("plain",) * 3, ("lm:x",) * 3])
     # ---- SimpleFormula
     inits = [(), (("a", "b"), ("1",), ("b",), ("c", "a"), ("a",))]
 
